@@ -27,14 +27,19 @@ class RejectMon(T.Monitor):
     def __init__(self, terminal_entry):
         self.terminal_entry = terminal_entry
         self.arms = set()
+        self.merged = {}
         self.late_errors = {}
 
     def on_event(self, mon, ev):
         arm, eff = mon
         k = ev[0]
         if k == "BRANCH" and ev[1] == "EventAction" and arm is None and short_name(ev[3]).endswith("Task::update"):
+            # arms may be merged (`Remove | Submit => ..`): a merged arm counts for each of its members
             arm = ev[2][0] if len(ev[2]) == 1 else "|".join(ev[2])
-            self.arms.add(arm)
+            self.arms |= set(ev[2])
+            if len(ev[2]) > 1 and set(ev[2]) & TERMINAL_ACTIONS:
+                arm = sorted(set(ev[2]) & TERMINAL_ACTIONS)[0]
+                self.merged[arm] = tuple(ev[2])
             return (arm, eff)
         if k in ("WRITE", "WRITE_OTHER", "EMIT", "EMIT_EVENT", "EMIT_OTHER", "SCHED", "PERSIST", "PUSH_OTHER", "EFFECT", "HAVOC"):
             if arm in TERMINAL_ACTIONS and self.terminal_entry:
@@ -221,11 +226,14 @@ def r2_r3(cx):
     eng.set_effects(EFFECTS, [q for q in m.fns if EFFECTS.search(q)])
     try:
         seen_arms = set()
+        merged_arms = {}
         rejected = {}
         for s0 in T.STATES:
             mon = RejectMon(terminal_entry=(s0 in T.TERMINAL))
             viol = eng.run(upd, s0, mon)
             seen_arms |= mon.arms
+            for rep, members in mon.merged.items():
+                merged_arms[rep] = members
             for payload, path in viol:
                 kind, arm, site = payload
                 if kind in ("effect", "ok-return"):
@@ -233,10 +241,18 @@ def r2_r3(cx):
                 else:
                     rejected.setdefault((arm, kind, None), (s0, path))
         allarms = {n for n, _ in m.variants("acts::event::EventAction")}
+        merged = {}
+        for k_, v_ in list(rejected.items()):
+            pass
         if not TERMINAL_ACTIONS <= seen_arms:
             cx.undecide("C05.R2", "the match on the action kind in Task::update was not recognised (arms seen: %s)" % sorted(seen_arms))
+        rep_of = {}
+        for rep, members in merged_arms.items():
+            for x in members:
+                rep_of[x] = rep
         for arm in sorted(TERMINAL_ACTIONS):
-            bad = [(k, v) for k, v in rejected.items() if k[0] == arm and k[1] in ("effect", "ok-return")]
+            ra = rep_of.get(arm, arm)
+            bad = [(k, v) for k, v in rejected.items() if k[0] == ra and k[1] in ("effect", "ok-return")]
             if not bad:
                 cx.ob("C05.R2", "reject:%s" % arm, True,
                       "`%s` on an act in any of the 8 terminal states reaches no effect and no Ok return" % arm.lower(), upd.loc())
@@ -245,7 +261,7 @@ def r2_r3(cx):
                 cx.ob("C05.R2", "reject:%s" % arm, False,
                       "`%s` on an act that is already %s %s" % (arm.lower(), s0, what), upd.loc(),
                       path=[T.fmt_event(m, e) for e in path[-8:]])
-            late = [(k, v) for k, v in rejected.items() if k[0] == arm and k[1] == "late-error"]
+            late = [(k, v) for k, v in rejected.items() if k[0] == ra and k[1] == "late-error"]
             cx.ob("C05.R3", "validate-first:%s" % arm, not late,
                   "`%s`: no error is constructed in update after the arm already changed something%s" % (
                       arm.lower(), (" (entered in %s)" % late[0][1][0]) if late else ""), upd.loc(),
